@@ -278,7 +278,9 @@ class CharsetTokenizer(Tokenizer):
                 currentchar += 1
 
             if currentchar > startchar:
-                t.text = value[startchar:currentchar]
+                # The last token gets the translated text like every other
+                # token (not the raw slice of the input)
+                t.text = text
                 t.boost = 1.0
                 if keeporiginal:
                     t.original = t.text
